@@ -784,7 +784,7 @@ func (h *c17Hist) comparePeer(p *c17Peer, best map[string]*c17Route, at string) 
 				}
 			}
 			bl, msgEv := h.blame(p, k, "stale")
-			if strings.HasPrefix(bl, "sent-on-") {
+			if strings.HasPrefix(bl, "sent-on-") && !strings.Contains(bl, "race-") { // in a race event the version may change within the event
 				bl = h.versionClass(tag, msgEv, best) + bl
 			}
 			diffs = append(diffs, fmt.Sprintf("STALE %s tag %d (%s) [%s]", k, tag, why, bl))
@@ -802,7 +802,7 @@ func (h *c17Hist) comparePeer(p *c17Peer, best map[string]*c17Route, at string) 
 		}
 		if !match {
 			bl, msgEv := h.blame(p, k, "different")
-			if strings.HasPrefix(bl, "sent-on-") {
+			if strings.HasPrefix(bl, "sent-on-") && !strings.Contains(bl, "race-") { // in a race event the version may change within the event
 				bl = h.versionClass(tag, msgEv, best) + bl
 			}
 			diffs = append(diffs, fmt.Sprintf("DIFFERENT %s peer holds version tag %d, should hold %v [%s]", k, tag, ws, bl))
@@ -905,6 +905,9 @@ func c17History(t *testing.T, rec *vlib.Rec, idx int) {
 			rec.Count("histories_with_modifying_import_policy", 1)
 		}
 	}()
+	// scheduler yields at gobgp's lock-free points (Gosched only: the comparison is at quiescence)
+	_, yields, unhook := simInstallYield(r.Uint64(), false)
+	defer func() { rec.Count("scheduler_yields", int(yields())); unhook() }()
 	h.rtcPolicy = r.IntN(2) == 0
 	h.medPolicy = r.IntN(2) == 0
 	h.collide = r.IntN(6) == 0
